@@ -148,3 +148,11 @@ func VerifCommitPage1(db *DB) (pos ltx.Pos, ok bool) {
 	must(db.RemoveJournal(ctx))
 	return db.Pos(), true
 }
+
+// VerifEncodeSnapshot: a snapshot-typed transaction file (min TXID 1) of a one-page image.
+func VerifEncodeSnapshot(db *DB, nodeID uint64, maxTXID ltx.TXID) []byte {
+	p := rt.Bytes("snap", verifP)
+	verifHeaderPage(p, 1, false)
+	hdr := ltx.Header{PageSize: verifP, Commit: 1, MinTXID: 1, MaxTXID: maxTXID, NodeID: nodeID}
+	return verifEncodeLTX(hdr, []uint32{1}, [][]byte{p}, verifSpecChecksum([][]byte{p}))
+}
